@@ -188,8 +188,18 @@ class _Valid(object):
     __nonzero__ = __bool__
 
 
+class _Invalid(object):
+    valid = False
+    status = "signature bad"
+
+    def __bool__(self):
+        return False
+    __nonzero__ = __bool__
+
+
 class FakeGPG(object):
     seen = []
+    answers = []        # answers of the next checks (True = valid); default valid
 
     def __init__(self, *a, **kw):
         pass
@@ -199,7 +209,8 @@ class FakeGPG(object):
 
     def verify_data(self, sig_file, data):
         FakeGPG.seen.append(bytes(data))
-        return _Valid()
+        ok = FakeGPG.answers.pop(0) if FakeGPG.answers else True
+        return _Valid() if ok else _Invalid()
 
 
 class _Gnupg(object):
@@ -249,21 +260,48 @@ def hex_form(h, rng):
     return h
 
 
-def revocation_yaml(hexes, rng):
-    lines = ["- name: revocation list", "  timestamp: 1", "  vars:",
-             "    insights_signature_exclude: /vars/insights_signature", "    insights_signature: aaaa",
-             "  revoked_playbooks:"]
+LIST_FORMS = ["no-signature", "null-signature", "no-exclusion-list", "no-vars", "vars-not-a-mapping",
+              "illegal-exclusion", "nonexistent-exclusion", "bad-signature", "unparsable"]
+
+
+def revocation_doc(hexes, rng, form="ok"):
+    """The revocation list as a document of its own: (abstract play or None, YAML bytes).  form = "ok" or one of
+    LIST_FORMS: the same well-formedness dimensions as a play (signature, exclusion list, vars); "bad-signature"
+    is a well-formed document for which the stubbed GPG answers invalid; "unparsable" is not YAML."""
+    if form == "unparsable":
+        return None, b"- {name: [revocation list\n  vars: {"
     # entry names: all different, all the same, or drawn from two names (entries may share a name)
     style = rng.choice(["distinct", "same", "same", "two"])
+    entries = []
     for i, h in enumerate(hexes):
         name = {"distinct": "r%d" % i, "same": "revoked play", "two": "r%d" % rng.randint(0, 1)}[style]
         shown = hex_form(h, rng)
         if bytes(bytearray.fromhex(shown)) != binascii.unhexlify(h):
             raise RuntimeError("R4: rendered revocation entry does not denote the digest")
-        lines += ["    - name: %s" % name, '      hash: "%s"' % shown]
-    if not hexes:
-        lines[-1] = "  revoked_playbooks: []"
-    return ("\n".join(lines) + "\n").encode("ascii")
+        entries.append(("map", [("name", ("str", name)), ("hash", ("str", shown))]))
+    excl = {"illegal-exclusion": rng.choice(["/revoked_playbooks,/vars/insights_signature", "/name",
+                                             "/vars/insights_signature,/timestamp", ""]),
+            "nonexistent-exclusion": rng.choice(["/hosts,/vars/insights_signature", "/vars/zz"])
+            }.get(form, "/vars/insights_signature")
+    vs = [("insights_signature_exclude", ("str", excl)), ("insights_signature", ("str", "aaaa"))]
+    if form == "no-signature":
+        vs = vs[:1]
+    elif form == "null-signature":
+        vs[1] = ("insights_signature", ("null",))
+    elif form == "no-exclusion-list":
+        vs = vs[1:]
+    ents = [("name", ("str", "revocation list")), ("timestamp", ("int", 1))]
+    if form == "vars-not-a-mapping":
+        ents.append(("vars", ("str", "insights_signature")))
+    elif form != "no-vars":
+        ents.append(("vars", ("map", vs)))
+    ents.append(("revoked_playbooks", ("seq", entries)))
+    node = ("map", ents)
+    text = "- " + to_yaml(node) + "\n"
+    loaded = pv.yaml.load(text)
+    if not isinstance(loaded, list) or len(loaded) != 1 or abstract(loaded[0]) != node:
+        raise RuntimeError("R4: the rendered revocation list does not load back as the intended document")
+    return node, text.encode("ascii")
 
 
 def hexd(b):
@@ -298,12 +336,14 @@ def outcome(fn):
         return "crash:" + type(ex).__name__, None
 
 
-def observe(node, how, via, revoked=(), rng=None):
+def observe(node, how, via, revoked=(), rng=None, lform="ok"):
     play = build(node, how)
     if abstract(play) != node:
         raise RuntimeError("R4: built object does not project back to the abstract play")
-    ev = {"ev": "obs", "via": via, "build": how, "revoked": list(revoked), "digest": ""}
+    ev = {"ev": "obs", "via": via, "build": how, "revoked": list(revoked), "digest": "",
+          "lparse": True, "lvalid": True, "ldoc": None}
     FakeGPG.seen = []
+    FakeGPG.answers = []
     if via == "exclude":
         out, d = outcome(lambda: pv.hash_play(pv.serialize_play(pv.exclude_dynamic_elements(play))))
         if out == "ok":
@@ -317,7 +357,10 @@ def observe(node, how, via, revoked=(), rng=None):
             if not res[0] or bytes(res[1]) != FakeGPG.seen[0]:
                 out = "crash:ReturnedHashDiffers"
     else:
-        _Pkgutil.revocation = revocation_yaml(revoked, rng)
+        ev["ldoc"], _Pkgutil.revocation = revocation_doc(revoked, rng, lform)
+        ev["lparse"] = ev["ldoc"] is not None
+        ev["lvalid"] = lform != "bad-signature"
+        FakeGPG.answers = [ev["lvalid"]]      # the first check of verify() is the one of the list itself
         out, res = outcome(lambda: pv.verify(play))
         if len(FakeGPG.seen) == 2:      # [revocation list itself, the play]
             ev["digest"] = hexd(FakeGPG.seen[1])
@@ -626,12 +669,24 @@ def main():
             lists = [other]
             if own:                     # the play's own digest alone, last, first and in the middle
                 lists += [[own], other + [own], [own] + other, [other[0], own, other[1]]]
-            for j, rev in enumerate(lists):
-                ev = observe(nd, builds[(i // every + j) % len(builds)], "verify", rev, frng)
+            todo = [(rev, "ok") for rev in lists]
+            # the list document itself ill-formed / unverifiable, with and without the play's digest on it
+            for form in frng.sample(LIST_FORMS, 2):
+                todo.append((lists[frng.randrange(len(lists))], form))
+            for j, (rev, form) in enumerate(todo):
+                ev = observe(nd, builds[(i // every + j) % len(builds)], "verify", rev, frng, form)
                 ev["p"] = i + 1
                 events.append(ev)
+    docs = []
+    for ev in events:           # the list documents travel as plays of their own, referenced by index
+        doc = ev.pop("ldoc")
+        if doc is None:
+            ev["ldoc"] = ev["p"]
+        else:
+            docs.append(doc)
+            ev["ldoc"] = len(nodes) + len(docs)
     with open(sys.argv[2], "w") as f:
-        json.dump({"plays": [flat(nd) for nd in nodes], "origin": origin, "events": events,
+        json.dump({"plays": [flat(nd) for nd in nodes + docs], "origin": origin + ["listdoc"] * len(docs), "events": events,
                    "stats": {"plays": len(nodes), "events": len(events), "yaml_builds": nyaml}}, f,
                   separators=(",", ":"))
 
